@@ -887,7 +887,36 @@ def run_reuse_case(p):
         from entity_query_language import set_of, or_, and_
         other = O.gen_cond(rng, 1, 1, falsy=True, vocab=('cmp', 'name'), neg=False)
         shape = rng.choice(['or_right', 'or_left', 'and_right', 'and_left'])
-        listing = rng.choice(['x_e', 'e_x', 'e_only'])
+        listing = rng.choice(['x_e', 'e_x', 'e_only', 'argument', 'argument'])
+        if p.get('both_roles') == 'argument':
+            listing, shape = 'argument', rng.choice(['or_right', 'or_left'])
+        if listing == 'argument':
+            # the expression is a constructor argument of an inferred instance AND a condition of the same rule: as an argument
+            # it is a value (C19 "constructor argument"), passed on whatever it is
+            from entity_query_language import rule_mode, infer
+            try:
+                with rule_mode():
+                    x = let(type_=O.Item, domain=dom)
+                    e = getattr(x, attr) if rng.random() < 0.8 else x.props['k']
+                    oc = O.build(other, [x])
+                    # (the head is built before or after the condition: which of the two first takes the expression as its
+                    # child differs)
+                    head_first = rng.random() < 0.5
+                    head = O.Built(a=x, b=e, tag='t') if head_first else None
+                    cond = {'or_right': lambda: or_(oc, e), 'or_left': lambda: or_(e, oc), 'and_right': lambda: and_(oc, e),
+                            'and_left': lambda: and_(e, oc)}[shape]()
+                    q = infer(entity(head if head_first else O.Built(a=x, b=e, tag='t'), cond))
+                val = (lambda o: getattr(o, attr)) if e._name_.endswith(attr) else (lambda o: o.props['k'])
+                sat = [o for o in dom if ((O.holds(other, {0: o}) or bool(val(o))) if shape.startswith('or') else (O.holds(other, {0: o}) and bool(val(o))))]
+                outs = [sorted((id(r.a), repr(r.b)) for r in q.evaluate()) for _ in range(2)]
+                want = sorted((id(o), repr(val(o))) for o in sat)
+            except Exception as ex:  # noqa
+                return {'shape': shape, 'listing': listing, 'exception': repr(ex), 'trace': traceback.format_exc(limit=4),
+                        'signature_kind': 'both-roles:argument:exception'}
+            if outs != [want, want]:
+                return {'shape': shape, 'listing': listing, 'attr': attr, 'other': repr(other), 'domain': repr(dom), 'got': repr(outs),
+                        'want': repr(want), 'signature_kind': 'both-roles:argument:' + shape}
+            return None
         try:
             with symbolic_mode():
                 x = let(type_=O.Item, domain=dom)
